@@ -14,6 +14,15 @@ import (
 	"github.com/cosi-project/runtime/pkg/resource"
 )
 
+// valueOps maps the operations which require a value to their resource counterparts.
+var valueOps = map[v1alpha1.LabelTerm_Operation]resource.LabelOp{
+	v1alpha1.LabelTerm_EQUAL:       resource.LabelOpEqual,
+	v1alpha1.LabelTerm_LT:          resource.LabelOpLT,
+	v1alpha1.LabelTerm_LTE:         resource.LabelOpLTE,
+	v1alpha1.LabelTerm_LT_NUMERIC:  resource.LabelOpLTNumeric,
+	v1alpha1.LabelTerm_LTE_NUMERIC: resource.LabelOpLTENumeric,
+}
+
 // ConvertLabelQuery converts protobuf representation of LabelQuery to state representation.
 func ConvertLabelQuery(terms []*v1alpha1.LabelTerm) ([]resource.LabelQueryOption, error) {
 	labelOpts := make([]resource.LabelQueryOption, 0, len(terms))
@@ -23,6 +32,16 @@ func ConvertLabelQuery(terms []*v1alpha1.LabelTerm) ([]resource.LabelQueryOption
 
 		if term.Invert {
 			opts = append(opts, resource.NotMatches)
+		}
+
+		// a comparison term without a value is passed through as is: it doesn't match any label value,
+		// exactly as it does when evaluated against the state directly
+		if op, ok := valueOps[term.Op]; ok && len(term.Value) == 0 {
+			labelOpts = append(labelOpts, func(q *resource.LabelQuery) {
+				q.Terms = append(q.Terms, resource.LabelTerm{Key: term.Key, Op: op, Invert: term.Invert})
+			})
+
+			continue
 		}
 
 		switch term.Op {
